@@ -113,6 +113,30 @@ pub mod verif {
         pub fn take() -> Vec<String> {
             TRACE.with(|t| std::mem::take(&mut *t.borrow_mut()))
         }
+
+        thread_local! {
+            static DETAIL: std::cell::Cell<bool> = const { std::cell::Cell::new(false) };
+        }
+        /// Switch the detailed stage events (`s1.*`, `s3.*`: proposals of the float heuristics) on or off.
+        pub fn set_detail(on: bool) {
+            DETAIL.with(|d| d.set(on));
+        }
+        pub fn detail() -> bool {
+            DETAIL.with(|d| d.get())
+        }
+        /// Row-major integer matrix.
+        pub fn imat(m: &nalgebra::Matrix3<i32>) -> String {
+            let v: Vec<String> = (0..9).map(|k| m[(k / 3, k % 3)].to_string()).collect();
+            v.join(" ")
+        }
+        /// Exact floats: the IEEE-754 bit patterns as decimal integers.
+        pub fn fvec(v: &nalgebra::Vector3<f64>) -> String {
+            format!("{} {} {}", v[0].to_bits(), v[1].to_bits(), v[2].to_bits())
+        }
+        pub fn perm(p: &crate::base::Permutation) -> String {
+            let v: Vec<String> = (0..p.size()).map(|i| p.apply(i).to_string()).collect();
+            v.join(" ")
+        }
     }
 }
 
